@@ -495,7 +495,12 @@ def _dget(ex, d, args, kwargs, node):
     k = args[0]
     if not hasattr(k, "t") or k.t.sort() != d.kt.sort():
         raise Unsupported("dict.get with a key of another type")
-    return VOptional(z3.Not(ex.mem_keys(d.keys, k.t)), d.et.wrap(z3.Select(d.val, k.t)), d.et)
+    stored = d.et.wrap(z3.Select(d.val, k.t))
+    missing = z3.Not(ex.mem_keys(d.keys, k.t))
+    if isinstance(stored, VOptional):
+        # values are themselves Optional: None for a missing key or a stored None
+        return VOptional(z3.Or(missing, stored.isnone), stored.val, stored.inner)
+    return VOptional(missing, stored, d.et)
 
 
 @meth("dict", "copy", tb="TB-py")
@@ -871,9 +876,16 @@ def _dyn(ex, o):
     return ex.st.obj(o.ref)
 
 
+# the key recorded on a conditional object (cond.index): set by whoever numbers the conditionals
+cidx = z3.Function("cond_index", L.Cnd, L.Int)
+has_index = z3.Function("cond_has_index", L.Cnd, L.Bool)
+
+
 @fn("builtins.hasattr", tb="TB-py")
 def _hasattr(ex, args, kwargs, node):
     o, name = args
+    if isinstance(o, VCnd) and isinstance(name, VStr) and name.const == "index":
+        return VBool(has_index(o.t))
     return VBool(z3.Select(_dyn(ex, o)["present"], name.t))
 
 
@@ -1023,6 +1035,15 @@ def _issubset(ex, a, args, kwargs, node):
     if isinstance(b, VEmptySet):
         return VBool(a.t == z3.EmptySet(a.et.sort()))
     return VBool(z3.IsSubset(a.t, b.t))
+
+
+@meth("set", "discard", tb="TB-py")
+def _setdiscard(ex, a, args, kwargs, node):
+    (x,) = args
+    if isinstance(a, VEmptySet):
+        return VNone()
+    ex.rebind(node.func.value, a, VSet(z3.SetDel(a.t, x.t), a.et))
+    return VNone()
 
 
 @meth("set", "add", tb="TB-py")
